@@ -6,6 +6,6 @@ CONSTANTS
   Execs = {"here"}
 INVARIANTS
   ResumedOnce ResumedAfterAll SeesOutcome EndState DropMeansNoResume ProtocolOK CounterSane NoRace
-  AbsResumedOnce AbsOutcome AbsRejected AbsNoResumeAfterReject AbsEnd
+  AbsResumedOnce AbsOutcome AbsOnExecutor AbsRejected AbsNoResumeAfterReject AbsEnd
 POSTCONDITION Accepted
 CHECK_DEADLOCK FALSE
